@@ -31,7 +31,7 @@ TYPED_THEOREMS = [
     "C05_typed_link", "C05_typed_outcomes", "C05_typed_first_bad", "C05_typed_extra_exact", "C05_typed_cause",
     "C05_typed_nested_cause",
     "C05_list_exn", "C05_list_ok", "C05_list_not_iterable", "C05_dict_exn", "C05_dict_not_mapping", "C05_tuplefix_exn",
-    "C05_typeddict_exn", "C05_namedtuple_no_silent_default", "C05_namedtuple_exn",
+    "C05_tupleu_var_exn", "C05_typeddict_exn", "C05_namedtuple_no_silent_default", "C05_namedtuple_exn",
 ]
 
 UNION_MEMBERS = ["int", "float", "bool", "str", "None", "date", "UUID", "List[int]", "Dict[str, int]", "Inner",
